@@ -81,6 +81,10 @@ def main():
             continue
         if args.only and args.only not in os.path.basename(d):
             continue
+        meta = json.load(open(os.path.join(d, 'meta.json')))
+        if meta.get('status') == 'rejected':
+            print(json.dumps({'id': os.path.basename(d), 'property': meta['property'], 'rejected': meta['rejected_because']}))
+            continue
         res = run_one(d, args)
         rows.append(res)
         print(json.dumps(res))
